@@ -632,3 +632,178 @@ Proof.
   rewrite across_field_top_bit; [apply IH|exact Hok|].
   apply Htop. destruct (fields <=? st) eqn:Es; lia.
 Qed.
+
+(* ---- unit claims fill the bitmap ---- *)
+
+Lemma count_below_zero n f : count_below n f = 0 <-> forall k, (k < n)%nat -> f (N.of_nat k) = false.
+Proof.
+  induction n as [|n IH]; cbn [count_below].
+  - split; [intros _ k Hk; lia|reflexivity].
+  - split.
+    + intros H k Hk. destruct (f (N.of_nat n)) eqn:E; [lia|].
+      destruct (Nat.eq_dec k n) as [->|Hne]; [exact E|]. apply IH; lia.
+    + intros H. rewrite (H n) by lia. rewrite (proj2 IH); [reflexivity|]. intros k Hk. apply H. lia.
+Qed.
+Lemma count_below_pos n f : 0 < count_below n f -> exists k, (k < n)%nat /\ f (N.of_nat k) = true.
+Proof.
+  induction n as [|n IH]; cbn [count_below]; intros H; [lia|].
+  destruct (f (N.of_nat n)) eqn:E; [exists n; split; [lia|exact E]|].
+  destruct (IH ltac:(lia)) as (k & Hk & Hf). exists k. split; [lia|exact Hf].
+Qed.
+Lemma count_below_ext n f g : (forall k, (k < n)%nat -> f (N.of_nat k) = g (N.of_nat k)) -> count_below n f = count_below n g.
+Proof.
+  induction n as [|n IH]; intros H; cbn [count_below]; [reflexivity|]. rewrite H by lia. rewrite IH; [reflexivity|].
+  intros k Hk. apply H. lia.
+Qed.
+Lemma count_below_flip n f g p :
+  (p < n)%nat -> f (N.of_nat p) = true -> g (N.of_nat p) = false ->
+  (forall k, (k < n)%nat -> k <> p -> g (N.of_nat k) = f (N.of_nat k)) ->
+  count_below n f = 1 + count_below n g.
+Proof.
+  induction n as [|n IH]; intros Hp Hf Hg Hs; [lia|]. cbn [count_below].
+  destruct (Nat.eq_dec p n) as [->|Hne].
+  - rewrite Hf, Hg. rewrite (count_below_ext n f g); [lia|]. intros k Hk. symmetry. apply Hs; lia.
+  - rewrite IH; try assumption; try lia.
+    + rewrite (Hs n) by lia. lia.
+    + intros k Hk Hkp. apply Hs; lia.
+Qed.
+
+Lemma zero_bits_zero_full bm : bm_ok bm -> zero_bits bm = 0 -> forall i, i < nfields bm -> getf bm i = FULL.
+Proof.
+  intros Hok Hz i Hi. unfold zero_bits in Hz. rewrite count_below_zero in Hz.
+  apply eq_of_bits64; [apply getf_lt, Hok|apply FULL_lt|]. intros b Hb. rewrite FULL_testbit.
+  specialize (Hz (N.to_nat (64 * i + b)) ltac:(unfold nfields in Hi; lia)). rewrite N2Nat.id, bm_bit_ib in Hz by exact Hb.
+  destruct (N.testbit (getf bm i) b); cbn in Hz; lia.
+Qed.
+
+Lemma full_no_unit_claim bm fields start :
+  bm_ok bm -> nfields bm = fields -> (forall i, i < fields -> getf bm i = FULL) ->
+  try_find_from_claim_across bm fields start 1 = (None, bm).
+Proof.
+  intros Hok Hnf Hfull.
+  destruct (try_find_from_claim_across bm fields start 1) as [[x|] bm'] eqn:E.
+  - exfalso. assert (Hex : exists x bm', try_find_from_claim_across bm fields start 1 = (Some x, bm')) by (exists x, bm'; exact E).
+    apply small_claim_complete in Hex; try assumption; try lia. destruct Hex as (i & b & Hi & B1 & B2).
+    rewrite free_at_bits in B2 by exact B1. specialize (B2 b ltac:(lia) ltac:(lia)).
+    rewrite (Hfull i Hi), FULL_testbit in B2. lia.
+  - f_equal. apply claim_across_failure in E; try assumption; try lia. reflexivity.
+Qed.
+
+Lemma unit_claim_step bm fields start :
+  bm_ok bm -> nfields bm = fields -> 0 < zero_bits bm ->
+  exists x bm', try_find_from_claim_across bm fields start 1 = (Some x, bm') /\
+                bm_ok bm' /\ nfields bm' = fields /\ zero_bits bm = 1 + zero_bits bm' /\
+                bm_bit bm x = false /\ x < 64 * fields.
+Proof.
+  intros Hok Hnf Hz. unfold zero_bits in Hz. apply count_below_pos in Hz. destruct Hz as (k & Hk & Hf).
+  destruct (flat_split (N.of_nat k)) as [Ek Hb]. set (i := N.of_nat k / 64) in *. set (b := N.of_nat k mod 64) in *.
+  rewrite Ek, bm_bit_ib in Hf by exact Hb.
+  assert (Hi : i < fields) by (unfold nfields in Hnf; lia).
+  assert (Hex : exists x bm', try_find_from_claim_across bm fields start 1 = (Some x, bm')).
+  { apply small_claim_complete; try assumption; try lia. exists i, b. split; [exact Hi|]. split; [lia|].
+    apply free_at_bits; [lia|]. intros j J1 J2. assert (j = b) by lia. subst j. destruct (N.testbit (getf bm i) b); [discriminate|reflexivity]. }
+  destruct Hex as (x & bm' & E). exists x, bm'. split; [exact E|].
+  pose proof (W64_val) as HW.
+  apply claim_across_success in E; try assumption; try lia.
+  destruct E as (Hx & L & O & B).
+  assert (Hnf' : nfields bm' = fields) by (unfold nfields in *; rewrite L; exact Hnf).
+  split; [exact O|]. split; [exact Hnf'|].
+  destruct (B x ltac:(lia)) as [Bx1 Bx2].
+  assert (Hinx : in_rng (x, x + 1) x = true) by (unfold in_rng; cbn [fst snd]; lia).
+  split; [|split; [apply Bx2, Hinx|lia]].
+  unfold zero_bits. rewrite L.
+  apply count_below_flip with (p := N.to_nat x).
+  - unfold nfields in Hnf. lia.
+  - rewrite N2Nat.id. rewrite (Bx2 Hinx). reflexivity.
+  - rewrite N2Nat.id. rewrite Bx1, Hinx, orb_true_r. reflexivity.
+  - intros j Hj Hne. destruct (B (N.of_nat j) ltac:(unfold nfields in Hnf; lia)) as [Bj _]. rewrite Bj.
+    assert (Ej : in_rng (x, x + 1) (N.of_nat j) = false) by (unfold in_rng; cbn [fst snd]; lia).
+    rewrite Ej, orb_false_r. reflexivity.
+Qed.
+
+(* unit_claims_fill: on ANY bitmap, exactly as many successive one-bit claims succeed as there are
+   zero bits (every free bit can be claimed); then the bitmap is full and the next claim fails *)
+Theorem unit_claims_fill n bm fields start :
+  bm_ok bm -> nfields bm = fields -> zero_bits bm = N.of_nat n ->
+  exists bm', claim_times n bm fields start 1 = Some bm' /\ bm_ok bm' /\ nfields bm' = fields /\
+              (forall i, i < fields -> getf bm' i = FULL) /\
+              try_find_from_claim_across bm' fields start 1 = (None, bm').
+Proof.
+  revert bm. induction n as [|n IH]; intros bm Hok Hnf Hz.
+  - exists bm. cbn [claim_times]. split; [reflexivity|]. split; [exact Hok|]. split; [exact Hnf|].
+    assert (Hfull : forall i, i < fields -> getf bm i = FULL) by (intros i Hi; apply zero_bits_zero_full; [exact Hok|lia|lia]).
+    split; [exact Hfull|]. apply full_no_unit_claim; assumption.
+  - destruct (unit_claim_step bm fields start Hok Hnf ltac:(lia)) as (x & bm1 & E & O1 & N1 & Z1 & _).
+    destruct (IH bm1 O1 N1 ltac:(lia)) as (bm' & C & R). exists bm'. split; [|exact R].
+    cbn [claim_times]. rewrite E. exact C.
+Qed.
+
+(* ---- the in-use bitmap of a fresh arena (mi_manage_os_memory_ex2) ---- *)
+
+Lemma nth_repeat0 n k : nth k (repeat 0 n) 0 = 0.
+Proof. revert k. induction n as [|n IH]; intros [|k]; cbn; auto. Qed.
+Lemma getf_repeat0 n i : getf (repeat 0 n) i = 0.
+Proof. apply nth_repeat0. Qed.
+Lemma bm_ok_repeat0 n : bm_ok (repeat 0 n).
+Proof. unfold bm_ok. induction n; cbn; constructor; [reflexivity|assumption]. Qed.
+
+Theorem arena_init_spec bcount : 1 <= bcount -> bcount + 64 < W64 ->
+  let fields := arena_fields bcount in
+  fields = (bcount + 63) / 64 /\ nfields (arena_init bcount) = fields /\ bm_ok (arena_init bcount) /\
+  forall i b, i < fields -> b < 64 -> N.testbit (getf (arena_init bcount) i) b = (bcount <=? 64 * i + b).
+Proof.
+  intros H1 HW. cbv zeta. unfold arena_init. unfold arena_fields. rewrite divide_up_64 by exact HW.
+  set (fields := (bcount + 63) / 64). set (post := fields * 64 - bcount).
+  assert (Hf : 64 * (fields - 1) < bcount /\ bcount <= 64 * fields /\ 1 <= fields) by (subst fields; lia).
+  split; [reflexivity|].
+  destruct (0 <? post) eqn:Ep.
+  - unfold claim, index_field, index_bit_in_field, index_create. cbn [snd].
+    replace (((fields - 1) * 64 + (64 - post)) / 64) with (fields - 1) by (subst post; lia).
+    replace (((fields - 1) * 64 + (64 - post)) mod 64) with (64 - post) by (subst post; lia).
+    rewrite getf_repeat0, N.lor_0_l.
+    assert (Hnf : nfields (repeat 0 (N.to_nat fields)) = fields) by (unfold nfields; rewrite repeat_length; lia).
+    split; [rewrite nfields_setf; exact Hnf|]. split; [apply setf_ok; [apply bm_ok_repeat0|apply mask_lt]|].
+    intros i b Hi Hb. rewrite getf_setf by (rewrite Hnf; lia). destruct (i =? fields - 1) eqn:E.
+    + rewrite mask_testbit by (subst post; lia). subst post. lia.
+    + rewrite getf_repeat0, N.bits_0. lia.
+  - assert (Hnf : nfields (repeat 0 (N.to_nat fields)) = fields) by (unfold nfields; rewrite repeat_length; lia).
+    split; [exact Hnf|]. split; [apply bm_ok_repeat0|].
+    intros i b Hi Hb. rewrite getf_repeat0, N.bits_0. subst post. lia.
+Qed.
+
+Lemma count_below_lt n c : count_below n (fun p => p <? c) = N.min (N.of_nat n) c.
+Proof.
+  induction n as [|n IH]; cbn [count_below]; [lia|]. rewrite IH. destruct (N.of_nat n <? c) eqn:E; lia.
+Qed.
+
+Lemma arena_init_zero_bits bcount : 1 <= bcount -> bcount + 64 < W64 -> zero_bits (arena_init bcount) = bcount.
+Proof.
+  intros H1 HW. destruct (arena_init_spec bcount H1 HW) as (F & Nf & Ok & B). cbv zeta in *.
+  set (fields := arena_fields bcount) in *. unfold zero_bits.
+  rewrite (count_below_ext _ _ (fun p => p <? bcount)).
+  - rewrite count_below_lt. unfold nfields in Nf. lia.
+  - intros k Hk. destruct (flat_split (N.of_nat k)) as [E Hb]. rewrite E at 1. rewrite bm_bit_ib by exact Hb.
+    rewrite B; [|unfold nfields in Nf; lia|exact Hb]. rewrite <- E. lia.
+Qed.
+
+(* unit_claims_fill_arena: a freshly created (or completely freed) arena of `bcount` blocks can be
+   handed out completely with exactly `bcount` one-block claims *)
+Theorem unit_claims_fill_arena bcount start : 1 <= bcount -> bcount + 64 < W64 ->
+  exists bm', claim_times (N.to_nat bcount) (arena_init bcount) (arena_fields bcount) start 1 = Some bm' /\
+              (forall i, i < arena_fields bcount -> getf bm' i = FULL) /\
+              try_find_from_claim_across bm' (arena_fields bcount) start 1 = (None, bm').
+Proof.
+  intros H1 HW. destruct (arena_init_spec bcount H1 HW) as (F & Nf & Ok & B). cbv zeta in *.
+  destruct (unit_claims_fill (N.to_nat bcount) (arena_init bcount) (arena_fields bcount) start Ok Nf) as (bm' & C & _ & _ & Fu & Nx).
+  - rewrite arena_init_zero_bits by assumption. lia.
+  - exists bm'. repeat split; assumption.
+Qed.
+
+(* a request of 1 or 2 blocks that fits into a completely free arena succeeds *)
+Theorem small_claim_free_arena bcount start count : 1 <= count -> count <= 2 -> count <= bcount -> bcount + 64 < W64 ->
+  exists x bm', try_find_from_claim_across (arena_init bcount) (arena_fields bcount) start count = (Some x, bm').
+Proof.
+  intros H1 H2 Hc HW. destruct (arena_init_spec bcount ltac:(lia) HW) as (F & Nf & Ok & B). cbv zeta in *.
+  apply small_claim_complete; try assumption. exists 0, 0. split; [rewrite F; lia|]. split; [lia|].
+  apply free_at_bits; [lia|]. intros k K1 K2. rewrite B; [lia|rewrite F; lia|lia].
+Qed.
